@@ -14,7 +14,11 @@ for f in sorted(glob.glob(os.path.join(ROOT, "seeded", "*", "meta.json"))):
         rep = r.get("first_replay") or {}
         sig = rep.get("signature") or ("K/proof: no-failing-input-found" if rep.get("kind") == "no-failing-input-found" else "")
         ran.append("%s: %s%s" % (c, tag, (" (`%s`)" % sig) if sig else ""))
-    rows.append("| %s | %s | %s | %s |" % (m["name"], m["property"], what, "; ".join(ran)))
-print("| seeded change | property | what it breaks / needs (from the author's note) | result of the quick checks |")
-print("|---|---|---|---|")
+    rer = []
+    for r in m.get("reruns", []):
+        c = r["check"].split()[1]
+        rer.append("%s: %s%s" % (c, "caught" if r["exit"] != 0 else "missed", (" (`%s`)" % r["signature"]) if r.get("signature") else ""))
+    rows.append("| %s | %s | %s | %s | %s |" % (m["name"], m["property"], what, "; ".join(ran), "; ".join(rer)))
+print("| seeded change | property | what it breaks / needs (from the author's note) | quick checks, first run | after strengthening |")
+print("|---|---|---|---|---|")
 print("\n".join(rows))
